@@ -10,7 +10,7 @@ use crate::common::*;
 use lrpar::RecoveryKind;
 use rayon::prelude::*;
 use serde_json::json;
-use vcore::gram::{RefGrammar, all_inputs, family_empty, family_empty2, family_expr, family_lalr, family_lalr2, family_seeds, family_ternary, neighbourhood};
+use vcore::gram::{RefGrammar, all_inputs, family_empty, family_chains, family_empty2, family_expr, family_lalr, family_lalr2, family_seeds, family_ternary, neighbourhood};
 use vcore::real::{Built, Drv, HInput, build, parse};
 use vcore::refs::{Earley, Lr1, analyse};
 use vcore::report::Ctx;
@@ -265,6 +265,7 @@ fn grammar_space(ctx: &Ctx, mode: Mode) -> (Vec<RefGrammar>, Vec<(String, usize)
         ("F-lalr", family_lalr()),
         ("F-lalr2", if mode == Mode::C02 { family_lalr2() } else { vec![] }),
         ("F-ternary", family_ternary()),
+        ("F-chains", family_chains()),
         ("F-empty", family_empty().into_iter().chain(family_empty2()).collect()),
         ("F-expr", family_expr()),
         ("F-seeds", family_seeds()),
